@@ -161,6 +161,8 @@ def show_key_sym(k):
             return "%s[%s]" % (show_value(k[1]), show_value(k[2]))
         if t == "call":
             return "%s(%s)" % (k[1], ", ".join(show_value(x) for x in k[2]))
+        if t == "mcall":
+            return "%s.%s(%s)" % (show_value(k[1]), k[2], ", ".join(show_value(x) for x in k[3]))
         if t == "P":
             return "P." + str(k[1])
         return str(t) + "(" + ", ".join(show_value(x) if not isinstance(x, str) else x for x in k[1:]) + ")"
@@ -610,7 +612,12 @@ class Summarizer:
         if v is not None:
             return v
         st.events.append(("call", fname, tuple(vkey(a) for a in args), tuple(sorted((k, vkey(x)) for k, x in kwargs.items())), n.lineno))
-        return Sym(("call", fname, tuple(vkey(a) for a in args) + tuple((k, vkey(x)) for k, x in sorted(kwargs.items()))))
+        allargs = tuple(vkey(a) for a in args) + tuple((k, vkey(x)) for k, x in sorted(kwargs.items()))
+        if isinstance(n.func, ast.Attribute):
+            recv = self.expr(n.func.value, st)
+            if not (isinstance(recv, Sym) and recv.key == ("name", "self")):
+                return Sym(("mcall", vkey(recv), n.func.attr, allargs))
+        return Sym(("call", fname, allargs))
 
     def builtin(self, fname, args, kwargs, st):
         if fname in ("abs", "np.abs", "np.absolute", "numpy.abs", "math.fabs") and len(args) == 1:
